@@ -125,6 +125,29 @@ def run_text(ctx):
         wants.append(coq_obs(impl_text_obs(x, normalize)))
         if len(x) > 6:
             ctx.sample({"branch": "text", "input": x, "normalize": normalize(x)}, limit=3)
+    # statelessness: the same inputs again, in another order, interleaved, through every way of passing is_xml
+    first = {}
+    for x in pool:
+        try:
+            first[x] = normalize(x)
+        except Exception:
+            pass
+    again = list(first)
+    ctx.rng.shuffle(again)
+    for k, x in enumerate(again[:3000]):
+        ctx.count("text:second_pass")
+        for how, f in (("normalize(x)", lambda: normalize(x)), ("normalize(x, False)", lambda: normalize(x, False)),
+                       ("normalize(x, is_xml=False)", lambda: normalize(x, is_xml=False)),
+                       ("normalize(content=x)", lambda: normalize(content=x))):
+            try:
+                y = f()
+            except Exception as e:
+                y = "RAISED " + type(e).__name__
+            if y != first[x]:
+                ctx.fail("C20:text:stateful", f"{how} returned a different result when called again later in the same process",
+                         {"kind": "impl-vs-statement", "branch": "text", "input": x, "input_codepoints": [ord(c) for c in x],
+                          "first": first[x], "later": y, "call": how, "preceded_by": again[max(0, k - 3):k]})
+                break
     # (B) model vs implementation, evaluated in Coq; plus the code-point sweep
     shard = 800
     jobs = [("C20_sweep", HEADER + "Eval vm_compute in sweep is_py_space 1114112.\n")]
@@ -467,6 +490,22 @@ def run_xml(ctx):
         cases.append("{| xc_protected := " + clist(cstr(p) for p in protected_model) + "; xc_input := " + coq_x(inp) +
                      "; xc_output := " + coq_x(o1) + " |}")
         metas.append((d, out))
+    # statelessness: every document again in another order, alternating with text-branch calls, positional and keyword is_xml
+    order = list(range(len(metas)))
+    rng.shuffle(order)
+    for k in order:
+        d, out = metas[k]
+        ctx.count("xml:second_pass")
+        normalize(" interleaved \t text " + str(k))
+        for how, f in (("normalize(d, is_xml=True)", lambda: normalize(d, is_xml=True)), ("normalize(d, True)", lambda: normalize(d, True))):
+            try:
+                y = f()
+            except Exception as e:
+                y = "RAISED " + type(e).__name__
+            if y != out:
+                ctx.fail("C20:xml:stateful", f"{how} returned a different result when called again later in the same process",
+                         {"kind": "impl-vs-statement", "branch": "xml", "document": d, "first": out, "later": y, "call": how})
+                break
     # (B) the model in Coq
     shard = 120
     jobs = []
